@@ -125,9 +125,10 @@ def run(tier):
         # ftruncate is not a write: also kill "after the last write" by asking for write W+1 (never reached) -> plain run
         ks = list(range(1, W + 1))
         if tier == "quick" and len(ks) > 10:
-            ks = sorted(set(rnd.sample(ks, 8) + [W, W - 1]))
+            ks = sorted(set(rnd.sample(ks, 8) + [W, W - 1, 1, 2]))
         for k in ks:
-            for j in ((-1, 0) if (tier == "thorough" or k >= W - 1) else (-1,)):
+            # (the first two writes carry the header: a kill inside them leaves 1, 24, 39 bytes - less than a lead - or half of it)
+            for j in ((-1, 0) if (tier == "thorough" or k >= W - 1) else (-1,)) + ((1, 24, 39, -2) if k <= 2 and (tier == "thorough" or si % 2 == 0) else ()):
                 cwd = fresh("k%d_%d" % (k, j + 1))
                 del srv.log[:]
                 # (not exercised: C04/C11 do not quantify over the process environment, and the shipped tool itself writes its
@@ -140,7 +141,7 @@ def run(tier):
                 fin = open(os.path.join(cwd, "B.zck"), "rb").read() if os.path.exists(os.path.join(cwd, "B.zck")) else b""
                 r2 = server.requested_ranges(srv.log, "B.zck")
                 cid = "zk%d" % zk; zk += 1
-                name = "zckdl %s%s: killed at target write %d/%d after %s bytes, then run again" % (label, (" (started without descriptors %s%s)" % (",".join(map(str, nofd)), "" if srcn else ", no local source")) if nofd else "", k, W, "all" if j == -1 else "0")
+                name = "zckdl %s%s: killed at target write %d/%d after %s bytes, then run again" % (label, (" (started without descriptors %s%s)" % (",".join(map(str, nofd)), "" if srcn else ", no local source")) if nofd else "", k, W, "all" if j == -1 else ("half the" if j == -2 else str(j)))
                 Ause = A if srcn else None
                 ev1 = zckdltier.tool_event(B, hB, Ause, T0 or b"", mid, r1, 99 if st1 == 99 else (st1 if isinstance(st1, int) else 98))
                 ev2 = zckdltier.tool_event(B, hB, Ause, mid, fin, r2, st2, must=True)          # the restart runs undisturbed: it has to converge
